@@ -34,6 +34,14 @@ func replay(cw *caseWriter, path string) {
 		switch comp {
 		case 19, 1900:
 			c19exec(cw, strings.TrimRight(tag, "cb"), in)
+		case 5:
+			c05exec(cw, tag, in)
+		case 6:
+			nsRun(cw, tag, in, c06monitor(cw))
+		case 7:
+			c07exec(cw, tag, in, true)
+		case 11:
+			c11exec(cw, tag, in)
 		default:
 			fmt.Fprintln(os.Stderr, "replay: unknown component", comp)
 		}
@@ -56,6 +64,14 @@ func main() {
 		replay(cw, tier)
 	case "c19":
 		runC19(cw, tier, seed)
+	case "c05":
+		runC05(cw, tier, seed)
+	case "c06":
+		runC06(cw, tier, seed)
+	case "c07":
+		runC07(cw, tier, seed)
+	case "c11":
+		runC11(cw, tier, seed)
 	default:
 		fmt.Fprintln(os.Stderr, "unknown component", comp)
 		os.Exit(2)
